@@ -1,5 +1,6 @@
 import GffProofs.Props.C08a
 import GffProofs.Props.C08b
+import GffProofs.Props.C08c
 open GffProofs GffProofs.C08
 #print axioms split_join
 #print axioms unquote_quote
@@ -9,3 +10,11 @@ open GffProofs GffProofs.C08
 #print axioms reparse_print_gff3
 #print axioms print_gff3_no_breaks
 #print axioms reparse_print_gtf
+#print axioms GffProofs.C08cAux.parseInt_intToStr
+#print axioms parseCoord_coordStr
+#print axioms feature_roundtrip_of_attrs
+#print axioms print_gtf_no_breaks
+#print axioms feature_print_reparse_gff3
+#print axioms feature_print_reparse_gtf
+#print axioms feature_print_reparse_no_attrs
+#print axioms printReparse_columns
